@@ -13,6 +13,7 @@ RULE = ('bucket mode: case = (capacity, rate, history of non-blocking / blocking
         'database.create()/write(); non-trivial = history with >=1 refused or delayed acquisition; distinct = histories')
 RULE_MORE = (' Writer mode also has persistent backend conditions (disk full, every write failing), series with 1000-3000 cached points and series under CARBON_METRIC_PREFIX; sched mode also raises the limits at shutdown and treats errors logged by the writer loop as violations.')
 RULE_MORE = RULE_MORE + ' Rounds 10-11: the writer under a bounded cache with flow control and an overloading sender; all write strategies in writer mode; faults carrying an errno.'
+RULE_MORE = RULE_MORE + ' Round 12: bucket mode on a clock that moves with every look at it; a backend refusing timestamps outside its 32-bit field.'
 RULE = RULE + RULE_MORE
 EXHAUSTIVE = {'quick': False, 'thorough': False}
 EXHAUSTIVE_OVER = 'all grant pairs (i, j) of every executed history'
